@@ -3,6 +3,7 @@ import CkbVerif.Driver.C02
 import CkbVerif.Model.Freeze
 import CkbVerif.Model.FreezeCodec
 import CkbVerif.Model.FreezeCache
+import CkbVerif.Model.FreezeCont
 
 /-! Line-protocol driver for C10 (protocol: harness/n10/src/c10.rs): the C02 ops build the chain
 (answered exactly like the C02 driver), `freeze` / `restart` / `query` run `Model/Freeze.lean`.
@@ -35,6 +36,9 @@ structure St where
   harness has read through them since the last `restart`); `restart` empties them, `prime` / `probe`
   read through them, `freeze bare` leaves them alone (the pass never touches a cache) -/
   caches : Option FreezeCache.Caches := none
+  /-- `cutsnap`: the combined state and the data-file limit before the next pass (what the `cutcont`
+  lines of the following `cutcheck` start from) -/
+  snap : Option (Sys × Nat) := none
 
 def toFS (s : St) : FS :=
   { v := s.c.v,
@@ -115,6 +119,53 @@ def query (s : St) : String :=
   " ".intercalate ([s!"frozen={frozenNumber f}", s!"tip={tip}"] ++ bs ++ ts ++
     (if splitAt s then ["MODEL-SPLIT"] else []))
 
+/-- the crash states of the harness (`Cut.kind` in c10.rs) -/
+def parseKind (x : String) : Option CutKind :=
+  match x with
+  | "D" => some .dataNoIndex
+  | "E" => some .nothing
+  | "N" => some .nothing
+  | "P" => some .partialData
+  | "X0" => some (.indexNoData false false)
+  | "Xh" => some (.indexNoData true false)
+  | "Xm" => some (.indexNoData false true)
+  | "W0" => some (.twoLost false)
+  | "Wh" => some (.twoLost true)
+  | "C" => some .complete
+  | _ =>
+    if x.startsWith "I" then (parseNat? (x.drop 1).toString).map CutKind.partialIndex else none
+
+/-- do all accessors of the combined state answer every main-chain block with the block? -/
+def allMainAnswer (k : Codec) (y : Sys) (ids : List Nat) : Bool :=
+  ids.all fun id =>
+    match y.rows.v.m.rindex id, y.rows.v.r.bodies id with
+    | some _, some blk =>
+      getBlockS k y id == .some blk && getPartS k y id == .some blk && getPackedS k y id == .some blk &&
+      getHeaderS y id == some blk && getAncestorS y blk.number == some blk
+    | _, _ => true
+
+/-- `cutcont <j> <state> <limit>`: the crash state of the append of item `j` of the pass that follows
+the snapshot `y0`, re-opened (`cutAt`); the recovery pass under the data-file limit `fit` (the
+snapshot's, or the one the next item / next two items exactly fit into the head file under); one more
+restart.  Answer: freezer.number after the re-open, after the recovery pass, and `=` iff every
+accessor answered every main-chain block with the block in all three states. -/
+def cutcont (s : St) (y0 : Sys) (j : Nat) (kd : CutKind) (fit : String) : String :=
+  let k := codecOf s
+  let ids := s.c.blocks.map (·.1)
+  match cutAt k y0 j kd with
+  | none => "open-fails"
+  | some t =>
+    let m := match fit with
+      | "exact" => fitLimit k t 1
+      | "two" => fitLimit k t 2
+      | _ => k.cfg.max
+    let t2 := (pass (k.withMax m) t (fun _ => false)).1
+    let (n3, ok3) := match stepReopen (k.withMax m) t2 with
+      | none => (0, false)
+      | some t3 => (t3.top.number, allMainAnswer k t3 ids)
+    let ok := allMainAnswer k t ids && allMainAnswer k t2 ids && ok3 && n3 == t2.top.number
+    s!"{t.top.number} {t2.top.number} {if ok then "=" else "!"}"
+
 def stepCore (s : St) (ts : List String) : St × String :=
   match ts with
   | "freeze" :: _ =>
@@ -152,8 +203,19 @@ def stepCore (s : St) (ts : List String) : St × String :=
     match parseNat? n with
     | some m => ({ s with fzmax := m }, "ok")
     | none => (s, "bad-op")
-  | ["cutsnap"] => (s, "ok")
+  | ["cutsnap"] =>
+    -- (the harness restarts the node here: `Freezer::open` on the files as they are)
+    if combined s then
+      match FreezerTop.openTop (codecOf s).cfg (toSys s).top.d with
+      | none => (s, "MODEL-SPLIT open-fails")
+      | some t => ({ s with top := some t, synced := t.number, snap := some ({ toSys s with top := t, synced := t.number }, s.fzmax) }, "ok")
+    else (s, "ok")
   | "cutcheck" :: _ => (s, "ok")
+  | ["cutcont", j, kind, fit] =>
+    match parseNat? j, parseKind kind, s.snap with
+    | some j, some kd, some (y0, fzmax) => (s, cutcont { s with fzmax := fzmax } y0 j kd fit)
+    | _, _, none => (s, "no-snapshot")
+    | _, _, _ => (s, "bad-op")
   -- `limit` stream: only the threshold arithmetic is compared (31 000 empty blocks are not replayed
   -- in the model): freezer.number after a pass = min(threshold, before + MAX_FREEZE_LIMIT)
   | ["limitpass", before, thr] =>
@@ -251,6 +313,7 @@ def step (s : St) (ts : List String) : St × String :=
       | ["freeze", "bare"] => s.caches
       | ["restart"] => some {}
       | ["fzmax", _] => s.caches
+      | "cutcont" :: _ => s.caches
       | _ => none
     ({ s' with caches := keep }, out)
 
